@@ -223,7 +223,7 @@ static void randomScenario(uint64_t seed, int nops, int scenario, unsigned kinds
 		const int copyAt2 = nops > 8 ? 2 + rng.below(nops - 3) : -1;
 		for (int n = 0; n < nops; ++n) {
 			if ((n == copyAt || n == copyAt2) && live < MAX_INST) {
-				Op cp; cp.op = rng.chance(40) ? "move" : "copy"; cp.a = rng.below(live);
+				Op cp; cp.op = (VH_CTX != 2 && rng.chance(40)) ? "move" : "copy"; cp.a = rng.below(live);
 				runOn(live, cp, PM_NONE);
 				nolog[live] = nolog[cp.a];
 				++live;
